@@ -306,7 +306,7 @@ func init() {
 		Plan: func(tier string) ([]string, *engine.JobResult) {
 			depth := 1
 			if tier == "thorough" {
-				depth = 3
+				depth = 2
 			}
 			jobs, pre := planSched(get(tier), depth, c12Judge)
 			for i := range get(tier) {
